@@ -285,6 +285,12 @@ PROPS = {
              "what": "compiled Queries against an array model: an ID handed out is never still outstanding, try_remove returns "
                      "exactly the stored item, count and is_empty agree with the model (also the companion that decides when the "
                      "Verus unit loses an anchor after a restructuring)"},
+            {"group": "repo_client", "name": "c15_queries_step_from_any_state_bounded", "kind": "bounded", "tier": "quick", "timeout": 600,
+             "bound": "tables of at most 6 slots, any occupancy, any curr allowed by the invariant, all values; one operation",
+             "what": "compiled Queries, one insert or try_remove from ANY state satisfying the representation invariant of unit "
+                     "queries: insert never hands out an occupied slot and changes no other slot, try_remove returns what was "
+                     "stored, the invariant is preserved (an induction step, so histories of every length are covered up to the "
+                     "table size)"},
         ],
         "explanation": "contract on the data structure that ties a response to its request on a multiplexed stream (message ID = slot "
                        "index of net/client/stream.rs::Queries): representation invariant (count == number of occupied slots, all slots "
